@@ -15,8 +15,15 @@ Definition gtriple : Type := (bytes * loc * option loc)%type.
 Definition val_loc (oe : option exp) : option loc :=
   match oe with Some e => if is_func e then Some (exp_loc e) else None | None => None end.
 
+(* the targets that can define a global: `nm = v`, and `_G.nm = v` / `_G["nm"] = v` (located at the key) *)
 Definition tgt_sig (t : exp) (oe : option exp) : option gtriple :=
-  match t with EName nm l => Some (nm, l, val_loc oe) | _ => None end.
+  match t with
+  | EName nm l => Some (nm, l, val_loc oe)
+  | EIndex p k tl =>
+    if simple_str (exp_name k) && beq_bytes (exp_name p) (c_bang :: Symbols.s_G)
+    then Some (exp_name k, if loc_initial (exp_loc k) then tl else exp_loc k, val_loc oe) else None
+  | _ => None
+  end.
 
 (* ------------------------------------------------------------------ boolean traversals of the syntax tree *)
 Section Chk.
@@ -59,7 +66,11 @@ Section Chk.
     end.
 End Chk.
 
-(* nm occurs as an assignment target `nm = ...` / `function nm() ... end` somewhere in the tree *)
+(* the target `_G.nm = ...` / `_G["nm"] = ...` (p = `_G`, k = the key): it assigns the global nm *)
+Definition g_is (nm : bytes) (p k : exp) : bool :=
+  simple_str (exp_name k) && beq_bytes (exp_name p) (c_bang :: Symbols.s_G) && beq_bytes nm (exp_name k).
+
+(* nm occurs as an assignment target `nm = ...` / `function nm() ... end` / `_G.nm = ...` somewhere in the tree *)
 Section Assigns.
   Variable nm : bytes.
   Fixpoint asg_exp (e : exp) {struct e} : bool :=
@@ -83,7 +94,7 @@ Section Assigns.
     | SAssign vars es _ =>
       existsb (fun t => match t with
                         | EName k _ => beq_bytes nm k
-                        | EIndex p k _ => asg_exp p || asg_exp k
+                        | EIndex p k _ => g_is nm p k || asg_exp p || asg_exp k
                         | _ => false
                         end) vars || existsb asg_exp es
     | SLocal nms ls _ es _ =>
@@ -103,7 +114,7 @@ Section Assigns.
   Definition asg_target (t : exp) : bool :=
     match t with
     | EName k _ => beq_bytes nm k
-    | EIndex p k _ => asg_exp p || asg_exp k
+    | EIndex p k _ => g_is nm p k || asg_exp p || asg_exp k
     | _ => false
     end.
 End Assigns.
@@ -281,6 +292,12 @@ Section Inv.
     - unfold Kinv. rewrite esig_note_nodefine. apply Hs.
     - unfold note_nodefine. destruct (find_loc_var (env s) nm l 0); [reflexivity|].
       destruct (assoc_mem nm (globs s) || assoc_mem nm (nodefs s)); reflexivity.
+  Qed.
+
+  Lemma note_G_post : forall p k s, pre s -> post s (note_G p k s) nobody.
+  Proof.
+    intros p k s Hs. unfold note_G. destruct p; try (apply post_refl; exact Hs). destruct k; try (apply post_refl; exact Hs).
+    destruct (_ && _); [apply note_nodefine_post; exact Hs | apply post_refl; exact Hs].
   Qed.
 
   Lemma pop_scope_post : forall s s', pre s -> pop_scope s = Ok s' -> post s s' nobody.
@@ -469,14 +486,42 @@ Section Inv.
         inv_bind H. pose proof (ce_nil_post _ _ _ Hp Hs Hb) as P1.
         inv_bind H. pose proof (ce_nil_post _ _ _ Hk (post_pre _ _ _ P1) Hb0) as P2.
         pose proof (post_seq _ _ _ _ _ P1 P2) as P12.
-        destruct (negb (simple_str (exp_name t2))); [ok_inj H; exact P12|].
-        destruct (split_dot (exp_name t1)) as [|p0 ps]; [ok_inj H; exact P12|].
-        destruct (negb (forallb simple_str ps)); [ok_inj H; exact P12|].
-        eapply post_then; [exact P12|].
-        destruct (find_loc_var (env a0) (trim_bang p0) _ 0) as [[[d i] v]|].
-        + ok_inj H. apply update_var_post; [apply member_assign_keeps | exact (post_pre _ _ _ P2)].
-        + destruct (find_global (trim_bang p0) flv slv _ (globs a0)); ok_inj H;
-            (apply update_var_post; [apply member_assign_keeps | exact (post_pre _ _ _ P2)]).
+        cbn [tgt_sig] in Hpt.
+        assert (Hfin : post a0 s' (fun k => g_is k t1 t2)).
+        { pose proof (post_pre _ _ _ P2) as Hs2.
+          destruct (simple_str (exp_name t2)) eqn:ES; cbn [negb andb] in H, Hpt.
+          2:{ ok_inj H. eapply post_weak; [apply post_refl; exact Hs2|].
+              intros k Hgk. unfold g_is in Hgk. rewrite ES in Hgk. discriminate. }
+          destruct (beq_bytes (exp_name t1) (c_bang :: Symbols.s_G)) eqn:EG.
+          { (* _G.key = v *)
+            assert (Hkey : forall k, g_is k t1 t2 = true -> k = exp_name t2).
+            { intros k Hgk. unfold g_is in Hgk. rewrite ES, EG in Hgk. cbn [andb] in Hgk. apply beq_bytes_eq. exact Hgk. }
+            destruct (find_global (exp_name t2) flv slv _ (globs a0)) as [v|] eqn:Eg.
+            - assert (P : post a0 s' nobody).
+              { ok_inj H. destruct (v_empty v && _); [|apply post_refl; exact Hs2].
+                apply update_var_post; [|exact Hs2]. intros [l0 f s1 p g r0 e0]. split; reflexivity. }
+              destruct P as [Q1 [Q2 _]]. split; [exact Q1|]. split; [exact Q2|].
+              intros k Hpb Hkn. apply Hkey in Hkn. subst k. apply Q2. eapply find_global_mem; exact Eg.
+            - ok_inj H. destruct Hs2 as [HK HG]. split; [split; [exact HK|]|split].
+              + intros [k x] Hin. cbn [globs] in Hin. apply assoc_set_in in Hin.
+                destruct Hin as [Hin|[-> ->]]; [apply HG; exact Hin|].
+                unfold gtrip. cbn [fst snd v_loc v_func]. rewrite Hofn. exact Hpt.
+              + intros k Hkm. cbn [globs]. rewrite assoc_mem_set, Hkm. reflexivity.
+              + intros k _ Hk0. apply Hkey in Hk0. subst k. cbn [globs]. rewrite assoc_mem_set, bb_refl. apply orb_true_r. }
+          assert (Hno : forall k, g_is k t1 t2 = true -> nobody k = true).
+          { intros k Hgk. unfold g_is in Hgk. rewrite ES, EG in Hgk. discriminate. }
+          destruct (split_dot (exp_name t1)) as [|p0 ps]; [ok_inj H; eapply post_weak; [apply post_refl; exact Hs2 | exact Hno]|].
+          destruct (negb (forallb simple_str ps)); [ok_inj H; eapply post_weak; [apply post_refl; exact Hs2 | exact Hno]|].
+          eapply post_weak; [|exact Hno].
+          destruct (if beq_bytes (trim_bang p0) Symbols.s_G then ps else []) as [|g0 gs].
+          + destruct (find_loc_var (env a0) (trim_bang p0) _ 0) as [[[d i] v]|].
+            * ok_inj H. apply update_var_post; [apply member_assign_keeps | exact Hs2].
+            * destruct (find_global (trim_bang p0) flv slv _ (globs a0)); ok_inj H;
+                (apply update_var_post; [apply member_assign_keeps | exact Hs2]).
+          + destruct (find_global g0 flv slv _ (globs a0)); ok_inj H;
+              (apply update_var_post; [apply member_assign_keeps | exact Hs2]). }
+        eapply post_weak; [exact (post_seq _ _ _ _ _ P12 Hfin)|].
+        intros k Hgk. cbv beta. destruct (g_is k t1 t2); [apply orb_true_r|]. rewrite orb_false_r. exact Hgk.
     Qed.
 
     Lemma nth_error_none_skipn : forall {A} (l : list A) i, nth_error l i = None -> skipn (S i) l = [].
@@ -588,7 +633,7 @@ Section Inv.
           apply andb_prop in He. destruct He as [He1 He2].
           inv_bind H. inv_bind H. injection H as <- <- <-.
           pose proof (Hnil _ _ _ _ _ He1 Hs Hb) as P1. pose proof (Hnil _ _ _ _ _ He2 (post_pre _ _ _ P1) Hb0) as P2.
-          exact (post_seq _ _ _ _ _ P1 P2).
+          eapply post_then; [exact (post_seq _ _ _ _ _ P1 P2) | apply note_G_post; exact (post_pre _ _ _ P2)].
         * (* ECall *)
           apply andb_prop in He. destruct He as [Hp Hargs].
           inv_bind H. inv_bind H. injection H as <- <- <-.
